@@ -47,10 +47,25 @@ class EvalModel(object):
                 if base is not None:
                     self.scores_root = m.root
                     self.container = call_name(base)
-                    self.stores.append((m.key.a[0], m))
+                    self.stores.append((_oracle_spelling(m.key.a[0], self.qual.split(".")[0]), m))
         self.kwname = self.func.kwarg
         self.calls = [c for c in s.calls() if c.fn is not None and c.fn.op in ("func", "localfunc")]
         self.kw_mutations = [m for m in s.by_kind("mutate") if m.root == self.kwname and self.kwname]
+
+
+def _oracle_spelling(key, task):
+    """a key built from a formatted number ("Precision@3" from f"Precision@{window}" over an unrolled 3.0) is the
+    documented key that differs only in how that whole number is written ("Precision@3.0")"""
+    import re
+
+    frozen = [k for k, _, _, _ in oracles.SCORES.get(task, [])]
+    if key in frozen:
+        return key
+    norm = lambda z: re.sub(r"(\d+)\.0(?!\d)", r"\1", z)
+    for fz in frozen:
+        if norm(fz) == norm(key):
+            return fz
+    return key
 
 
 def _container_origin(t, depth=0):
